@@ -21,8 +21,8 @@ type lin struct {
 	k int64
 }
 
-func linConst(k int64) lin      { return lin{map[string]int64{}, k} }
-func linAtom(a string) lin      { return lin{map[string]int64{a: 1}, 0} }
+func linConst(k int64) lin { return lin{map[string]int64{}, k} }
+func linAtom(a string) lin { return lin{map[string]int64{a: 1}, 0} }
 func (a lin) add(b lin, s int64) lin {
 	r := lin{map[string]int64{}, a.k + s*b.k}
 	for k, v := range a.c {
@@ -47,7 +47,7 @@ func (a lin) scale(s int64) lin {
 	}
 	return r
 }
-func (a lin) isZero() bool { return len(a.c) == 0 && a.k == 0 }
+func (a lin) isZero() bool  { return len(a.c) == 0 && a.k == 0 }
 func (a lin) eq(b lin) bool { return a.add(b, -1).isZero() }
 func (a lin) String() string {
 	var ks []string
